@@ -1,9 +1,11 @@
 import Nsq.Model.Aggregate
+import Nsq.Model.Int64
 /-!
 Line protocol of the C18 correspondence (driver side): parse a `view …` op (request + the whole
 stub cluster) and render the model's view canonically. Lists whose order the code leaves to
 goroutine arrival (or to an unstable sort) are rendered sorted; the harness does the same.
-Not used by any theorem.
+Not used by any theorem. Integers are printed as nsqadmin holds them: int64, i.e. `wrap64` of the model's
+`Int` (see `Props.C18.int64_sum_wraps`, `counters_go_sum`).
 -/
 namespace Nsq.Model.AggregateWire
 open Nsq.Model.Aggregate
@@ -167,7 +169,7 @@ def sorted (xs : List String) : List String := sortNames xs
 
 def cs (c : Counters) : String :=
   String.intercalate "," ([c.depth, c.memDepth, c.backendDepth, c.inFlight, c.deferred, c.requeue,
-    c.timeout, c.msgCount, c.delivery, c.zoneLocal, c.regionLocal, c.globalMsg, c.clientCount].map toString)
+    c.timeout, c.msgCount, c.delivery, c.zoneLocal, c.regionLocal, c.globalMsg, c.clientCount].map (fun x => toString (Nsq.Model.Int64.wrap64 x)))
 
 def e (s : String) : String := if s == "" then "-" else s
 
@@ -194,12 +196,12 @@ def renderBody : Body → String
       joinOr (sorted p.remotes) "+" ++ "/" ++
       joinOr (sorted (p.topics.map (fun t => e t.topic ++ "~" ++ b01 t.tombstoned))) "+"))) ";" ++ "]"
   | .node name ts tm tc =>
-    e name ++ " " ++ toString tm ++ " " ++ toString tc ++
+    e name ++ " " ++ toString (Nsq.Model.Int64.wrap64 tm) ++ " " ++ toString (Nsq.Model.Int64.wrap64 tc) ++
     " T[" ++ joinOr (sorted (ts.map (fun t =>
       e t.name ++ "/" ++ cs t.cnt ++ "/" ++ b01 t.paused ++ "/" ++
       joinOr (sorted (t.channels.map (fun c =>
         e c.name ++ "~" ++ cs c.cnt ++ "~" ++ b01 c.paused ++ "~" ++ toString c.clients.length))) "+"))) ";" ++ "]"
-  | .counter st => joinOr (sorted (st.map (fun kv => kv.1 ++ "=" ++ toString kv.2))) ","
+  | .counter st => joinOr (sorted (st.map (fun kv => kv.1 ++ "=" ++ toString (Nsq.Model.Int64.wrap64 kv.2)))) ","
   | .none => "-"
 
 def renderView (v : View) : String :=
